@@ -95,7 +95,8 @@ class Gen:
         if x < 0.75: return ' '
         if x < 0.85: return '  '
         if x < 0.90: return '\t'
-        if x < 0.96: return ' \\\n '
+        if x < 0.955: return ' \\\n '
+        if x < 0.965: return self.r.choice([' \\\n\\\n', ' \\\n\\\n ', '\t\\\n \\\n'])     # adjacent continuations
         return '   '
     def osp(self):
         return self.sp() if self.r.random() < 0.3 else ''
@@ -106,10 +107,10 @@ class Gen:
     def nl(self):
         """a newline (flushing pending here-document bodies), maybe with comment / blank lines"""
         s = ''
-        if self.r.random() < 0.08: s += self.osp() + '# c' + self.r.choice(['', ' x', ' $(y)', " '"])
+        if self.r.random() < 0.08: s += (self.osp() or ' ') + '# c' + self.r.choice(['', ' x', ' $(y)', " '", ' \\', '\\', ' x\\\\'])
         s += '\n' + self.flush_heredocs()
         if self.r.random() < 0.1: s += '\n'
-        if self.r.random() < 0.05: s += ' # d\n'
+        if self.r.random() < 0.05: s += self.r.choice([' # d\n', ' # d\n', '#\\\n', ' # d \\\n'])
         return s
     def term(self):
         """list terminator inside compound commands: ';' or newline"""
